@@ -71,6 +71,16 @@ register("C09", "proof",
          TB + "the IC10 grammar PV.IC10.Spec / Parse is a hand-written specification; Lean's Float printing is opaque so float formatting is differential only.",
          "Lean 4 proof for numerals and version note + loader-model (grammar) evaluation of real outputs", "DESIGN.md §4 C09")
 
+register("C01", "other",
+         "Partial. Proved in Lean over tables regenerated from utils.py on every run: the branch emitted for every comparison operator is taken exactly when the source condition is false, the set instruction "
+         "computes the comparison, and the two suffix tables negate each other (branch_neg_correct, cmp_set_correct, negated_table_negates; all values of a linear order). The whole-program statement is NOT a "
+         "theorem about the real generator: it is explored by an executable oracle — the reference semantics of the dialect (PV.Src) and the IC10 machine (PV.IC10), both hand-written Lean specifications compiled "
+         "into pvdrv, run each generated source program and the real emitted code against the same pseudo-random device environments and compare effect traces (prefix rule for endless programs). Streams: core, "
+         "functions, call-heavy; behaviour-neutral options randomised; witnesses of known findings F-C01-a/c/f printed as KNOWN-FINDING. Level 'other' because the deciding method for the full quantifier is "
+         "differential testing against a formal semantics, with Lean proofs only for the branch-selection mechanism (and for the model code generator of the core sub-language where PV.Props.C01Core is present).",
+         TB + "PV.Src and PV.IC10 semantics are trusted hand-written specifications (not validated against the game); NaN / non-finite values outside the compared domain; 128-instruction tick budget not modelled.",
+         "Lean 4 proofs for the branch tables + differential execution of real outputs against a Lean reference semantics", "DESIGN.md §4 C01")
+
 ALL = [f"C{i:02d}" for i in range(1, 19)]
 
 
